@@ -254,7 +254,31 @@ func (g *Gen) pool(t *Type, env map[int]*Type, depth int) []*Val {
 			env2[k] = v
 		}
 		env2[t.ID] = t
-		return g.pool(t.Elem, env2, depth)
+		out := g.pool(t.Elem, env2, depth)
+		if t.Name == "RecM" && depth >= 2 {
+			// struct{int; map[string]*RecM}: a tree two levels deep whose inner maps have several entries
+			// (the function generated for the map type re-enters itself while it ranges over the outer keys)
+			leaf := func(n int64) *Val {
+				return &Val{K: "p", Loc: g.Fresh(), Elems: []*Val{{K: "st", Elems: []*Val{vi(n), {K: "nilm"}}}}}
+			}
+			inner := func(n int64, keys ...string) *Val {
+				m := &Val{K: "m", Loc: g.Fresh()}
+				for i, k := range keys {
+					m.KVs = append(m.KVs, [2]*Val{vs(k), leaf(n + int64(i))})
+				}
+				return &Val{K: "p", Loc: g.Fresh(), Elems: []*Val{{K: "st", Elems: []*Val{vi(n), m}}}}
+			}
+			tree := func(order []int) *Val {
+				kids := [][2]*Val{{vs("a"), inner(10, "x", "y", "z")}, {vs("b"), inner(20, "p", "q")}, {vs("c"), inner(30, "r", "s", "t", "u")}}
+				m := &Val{K: "m", Loc: g.Fresh()}
+				for _, i := range order {
+					m.KVs = append(m.KVs, kids[i])
+				}
+				return &Val{K: "st", Elems: []*Val{vi(1), m}}
+			}
+			out = append(out, tree([]int{0, 1, 2}), tree([]int{2, 1, 0}), tree([]int{1}), tree([]int{1, 0}))
+		}
+		return out
 	case KRef:
 		return g.pool(env[t.ID].Elem, env, depth)
 	case KPtr:
